@@ -29,9 +29,12 @@ def decorate(rng, rec, stratum):
             v = v + rng.choice([" = b", " #c", ", d"])
         elif k in ("capname", "fstype", "signal", "info") and stratum == "hexlooking" and rng.random() < 0.5:
             v = rng.choice(["ABCDEF", "CAFE1234", "DEADBEEF", "0123"])
-        elif k in ("name", "profile") and stratum == "hexlooking" and rng.random() < 0.4:
+        elif k in ("name", "profile") and stratum == "hexlooking" and rng.random() < 0.4 and ident(rec)[0] != k:
             v = rng.choice(["ABCDEF", "CAFE1234", "BEEF"])     # hex-looking but the kernel quotes it (all bytes printable)
         out.append((k, v))
+    if stratum == "hexlooking" and rng.random() < 0.5:
+        # auditd-style bare fields whose key merely ends in name/comm/profile and whose value merely looks like hex
+        out.append((rng.choice(["hostname", "xcomm", "subprofile"]), rng.choice(["ABCDEF", "CAFE12", "DEAD"]), "bare"))
     if stratum == "hexforce":
         out = [(k, v, "hex") if k in ("name", "comm", "profile") and rng.random() < 0.7 else (k, v) for (k, v) in out]
     if stratum != "tame" and rng.random() < 0.4:
